@@ -24,9 +24,7 @@ def sx_float(x=0.0):
 
 def sx_int(x=0, *a):
     if isinstance(x, SNum):
-        if x.dom is not None or True:
-            v = core.concretize(x)
-            return builtins.int(v)
+        return builtins.int(core.concretize(x))
     return builtins.int(x, *a)
 
 
@@ -146,6 +144,11 @@ class SXHelpers:
             x = npx._demote(x)
         return x.astype(t, *a, **k)
 
+    float_ = staticmethod(sx_float)
+    int_ = staticmethod(sx_int)
+    round_ = staticmethod(sx_round)
+    isinstance_ = staticmethod(sx_isinstance)
+
     @staticmethod
     def tolist(x, *a, **k):
         return x.tolist(*a, **k)
@@ -160,10 +163,15 @@ class SXHelpers:
 
 class Rewriter(ast.NodeTransformer):
     def __init__(self):
-        self.n = {"astype": 0}
+        self.n = {"astype": 0, "builtin_calls": 0}
 
     def visit_Call(self, node):
         self.generic_visit(node)
+        if isinstance(node.func, ast.Name) and node.func.id in ("float", "int", "round", "isinstance"):
+            # call sites only: the bare names (e.g. dtype=float, .astype(int)) stay the builtins
+            self.n["builtin_calls"] += 1
+            node.func = ast.copy_location(ast.Attribute(value=ast.Name(id="__sx__", ctx=ast.Load()), attr=node.func.id + "_", ctx=ast.Load()), node.func)
+            return node
         if isinstance(node.func, ast.Attribute) and node.func.attr == "astype":
             self.n["astype"] += 1
             return ast.copy_location(
@@ -244,11 +252,6 @@ class Loader(importlib.abc.MetaPathFinder, importlib.abc.Loader):
                 g[name] = self.math; subs.append(name)
             elif val is math.ceil:
                 g[name] = sx_ceil; subs.append(name)
-        g["float"] = sx_float
-        g["int"] = sx_int
-        g["round"] = sx_round
-        g["isinstance"] = sx_isinstance
-        subs += ["float", "int", "round", "isinstance"]
         from . import stubs
         subs += stubs.substitute(short, g)
         self.substituted[short] = sorted(subs)
